@@ -182,6 +182,7 @@ theorem euidClause_explained {P S : List Obj} {r : StepRec} (h : euidClause P r 
   | clone _ _ => simp [hop] at h2
   | dest _ => simp [hop] at h2
   | reload _ => simp [hop] at h2
+  | via _ _ => simp [hop] at h2
 
 /-- An object's uid differs from the snapshot before the step only if it was (re)created in this step or the step is
     an export_uid onto it that returned 1, by an actor whose euid was not 0, while the object's own euid was 0; the
@@ -215,6 +216,7 @@ theorem uidClause_explained {P S : List Obj} {r : StepRec} (h : uidClause P r = 
   | clone _ _ => simp [hop] at this
   | dest _ => simp [hop] at this
   | reload _ => simp [hop] at this
+  | via _ _ => simp [hop] at this
 
 /-- Every object announced by a create() was made by a load/clone of an actor that is the master or has an euid,
     after creator_file answered without error, with uid = the answer ("NONAME" for a non-string) and euid 0 - or,
